@@ -121,13 +121,69 @@ theorem better_mono_of_better {s : St} (hn : s.IdsNodup) {v v' : Server} (hv : v
 
 /-! ### `server_increment_failures` -/
 
-/-- the record `server_increment_failures` writes -/
+/-- the record `server_increment_failures` writes (a failure also ends the server's probe episode: `probe_pending` is
+    cleared — the pinned C code did not do that, finding F48-C09, repaired) -/
 def failedServer (s : St) (v : Server) : Server :=
-  { v with failures := v.failures + 1, nextRetry := s.now + s.cfg.retryDelay }
+  { v with failures := v.failures + 1, nextRetry := s.now + s.cfg.retryDelay, probePending := false }
 
 theorem incFailures_servers {s : St} {id : Nat} {v : Server} (hv : s.server? id = some v) (tcp : Bool) :
     (s.incFailures id tcp).servers = (s.setServer (failedServer s v)).servers := by
   unfold St.incFailures; rw [hv]; rfl
+
+/-- `server_increment_failures` in closed form: every entry with that id becomes the failed record, the others stay -/
+theorem incFailures_servers_map (s : St) (id : Nat) (tcp : Bool) :
+    (s.incFailures id tcp).servers =
+      s.servers.map fun x => if x.id == id then failedServer s ((s.server? id).getD x) else x := by
+  unfold St.incFailures
+  cases h : s.server? id with
+  | none =>
+    have hno : ∀ x ∈ s.servers, (x.id == id) = false := by
+      intro x hx
+      unfold St.server? at h
+      rw [List.find?_eq_none] at h
+      simpa using h x hx
+    show s.servers = _
+    conv => lhs; rw [← List.map_id s.servers]
+    apply List.map_congr_left
+    intro x hx
+    simp [hno x hx]
+  | some v =>
+    have hid : v.id = id := find?_id_eq h
+    show (s.servers.map fun x => if x.id == (failedServer s v).id then failedServer s v else x) = _
+    have : (failedServer s v).id = id := hid
+    rw [this]
+    rfl
+
+/-- C09 `failure_releases_probe_pending`: after `server_increment_failures` the server has `probe_pending` cleared,
+    every other server is as it was, and the ids (and their order) are unchanged -/
+theorem incFailures_probePending (s : St) (id : Nat) (tcp : Bool) :
+    (∀ v ∈ (s.incFailures id tcp).servers, v.id = id → v.probePending = false) ∧
+    (∀ w : Server, w.id ≠ id → (w ∈ (s.incFailures id tcp).servers ↔ w ∈ s.servers)) ∧
+    (s.incFailures id tcp).servers.map (·.id) = s.servers.map (·.id) := by
+  refine ⟨?_, ?_, incFailures_ids s id tcp⟩
+  · intro v hv hid
+    rw [incFailures_servers_map] at hv
+    obtain ⟨x, _, rfl⟩ := List.mem_map.mp hv
+    by_cases hx : x.id == id
+    · simp only [hx, ↓reduceIte]; rfl
+    · simp only [hx, Bool.false_eq_true, ↓reduceIte] at hid
+      exact absurd (by simpa using hid) hx
+  · intro w hw
+    rw [incFailures_servers_map, List.mem_map]
+    constructor
+    · rintro ⟨x, hx, rfl⟩
+      by_cases hxi : x.id == id
+      · simp only [hxi, ↓reduceIte] at hw ⊢
+        have h1 : (failedServer s ((s.server? id).getD x)).id = ((s.server? id).getD x).id := rfl
+        exfalso; apply hw; rw [h1]
+        cases h : s.server? id with
+        | none => simpa using hxi
+        | some v => exact find?_id_eq h
+      · simpa only [hxi, Bool.false_eq_true, ↓reduceIte] using hx
+    · intro hm
+      refine ⟨w, hm, ?_⟩
+      have : (w.id == id) = false := by simpa using hw
+      simp [this]
 
 theorem sortedServers_congr {s s' : St} (h : s'.servers = s.servers) : s'.sortedServers = s.sortedServers := by
   unfold St.sortedServers; rw [h]
